@@ -23,16 +23,21 @@ from lib.core import Result, f2b, b2f
 READY = True
 MANIFEST = dict(
     text='Proof (Lean 4, over the reals, for the same definitions the driver runs on Float): logit probabilities lie in [0,1], sum to one '
-    '(>= 1 available alternative), vanish when unavailable, are invariant under a common shift of the utilities, exp(loglogit) = logit; the same '
+    '(>= 1 available alternative), vanish when unavailable, are invariant under a common shift of the utilities, exp(loglogit) = logit = closed form; the same '
     'three distribution facts for MEV with arbitrary user-supplied ln G_i; shift invariance, hence distributions, for nested, nested-with-mu, '
-    'cross-nested and cross-nested-with-mu for every nest list (partitions, alone alternatives, overlapping nests, any alpha >= 0, mu_m, mu > 0); ordered '
-    'models telescope to one for any cdf and lie in [0,1] for a monotone cdf with values in [0,1] (proved for the logistic cdf and for Phi); '
-    'log versions equal the log of the probability versions; check_partition accepts only partitions. '
-    'Tie: correspondence on real model expressions evaluated by the real engine for every alternative, plus the property oracle on the real outputs.',
+    'cross-nested and cross-nested-with-mu for every nest list (partitions or not, alone alternatives, overlapping nests, any alpha >= 0, mu_m != 0, mu != 0); '
+    'unavailable alternatives are irrelevant (removing them from the dictionaries and the nests changes nothing); ordered '
+    'models telescope to one for any cdf and lie in [0,1] for a monotone cdf with values in [0,1] (proved for the logistic cdf; for Phi from Mathlib\'s cdf of the standard Gaussian); '
+    'log versions equal the log of the probability versions. '
+    'Tie: correspondence on real model expressions (models.logit/loglogit/nested/lognested/nested_mev_mu/lognested_mev_mu/cnl/logcnl/cnlmu/logcnlmu/mev/logmev/'
+    'ordered_logit/ordered_probit, tuple and object nest syntax, numeric and Beta parameters) evaluated by the real engine for every alternative on database rows, '
+    'plus the property oracle on the real outputs (range, sum, zero-if-unavailable, shift, log versions, dropped-unavailable relation).',
     design='DESIGN.md §5 C05',
     technique='Lean 4 theorems over an executable semantic model (NumOps: Float driver / real proofs) + differential correspondence with the real engine + property oracle on real outputs',
     note='Trusted: real vs IEEE arithmetic (overflow of exp not modelled; the engine shifts utilities, the model does not), the engine evaluation of the expression trees. '
-    'Known findings: LogLogit.get_value (Python path) returns +inf for an unavailable chosen alternative; ordered_* with a single discrete value is not a distribution.',
+    'Known findings: LogLogit.get_value (Python path) returns +inf for an unavailable chosen alternative (F-C05-1); ordered_* with fewer than two discrete values is not a distribution / IndexError (F-C05-2; the model has the repaired behaviour). '
+    'Observations (not findings): cnl multiplies by the availability value (a value 2 changes the probabilities); check_partition does not refuse a nest listing an alternative twice; '
+    'an alternative whose alphas are all 0 gets ln G_i = 0 in cnl but -inf in cnlmu.',
 )
 TRUSTED = [
     'real arithmetic vs IEEE doubles: theorems over the reals, comparison with tolerance 1e-9; overflow of exp is not modelled (the engine subtracts a shift, the model does not)',
